@@ -20,17 +20,18 @@ const prop = "C04"
 
 // Case is one accessor call on one window, replayable.
 type Case struct {
-	Start    int    `json:"start"`
-	Count    int    `json:"count"`
-	Poisoned bool   `json:"poisoned"`           // payload is a prefix of a larger buffer filled with 0xA5
-	Data     string `json:"data_hex,omitempty"` // explicit payload (value sweep); empty = the position pattern
-	Default  uint8  `json:"default_order"`
-	Acc      string `json:"accessor"`
-	Addr     int    `json:"addr"`
-	Order    uint8  `json:"order"`
-	Bit      int    `json:"bit"`
-	High     bool   `json:"high"`
-	Len      int    `json:"len"`
+	Start    int     `json:"start"`
+	Count    int     `json:"count"`
+	Poisoned bool    `json:"poisoned"`           // payload is a prefix of a larger buffer filled with 0xA5
+	Data     string  `json:"data_hex,omitempty"` // explicit payload (value sweep); empty = the position pattern
+	Default  uint8   `json:"default_order"`
+	Prior    []uint8 `json:"prior_defaults,omitempty"` // WithByteOrder calls made on the view before the one that set Default
+	Acc      string  `json:"accessor"`
+	Addr     int     `json:"addr"`
+	Order    uint8   `json:"order"`
+	Bit      int     `json:"bit"`
+	High     bool    `json:"high"`
+	Len      int     `json:"len"`
 }
 
 type local struct {
@@ -302,11 +303,17 @@ func newWindow(start, count int, poisoned bool, def uint8, res *ev.Result) *wind
 	return newWindowFrom(start, count, poisoned, def, payload(count, poisoned), res)
 }
 
-func newWindowFrom(start, count int, poisoned bool, def uint8, d []byte, res *ev.Result) *window {
+func newWindowFrom(start, count int, poisoned bool, def uint8, d []byte, res *ev.Result, prior ...uint8) *window {
 	r, err := packet.NewRegisters(d, uint16(start))
 	if err != nil || r == nil {
 		res.Violate(ev.Violation{Check: "acc", Kind: "newregisters-refuses", Attrs: map[string]any{}, Msg: fmt.Sprintf("NewRegisters(%d bytes, %d): %v", len(d), start, err), Case: Case{Start: start, Count: count}})
 		return nil
+	}
+	for _, p := range prior {
+		r.WithByteOrder(packet.ByteOrder(p)) // earlier settings of the view's default: only the last one counts
+	}
+	if len(prior) > 0 && def == 0 {
+		def = spec.DefaultOrder // "back to the documented default" has to be said explicitly after another order was set
 	}
 	if def != 0 {
 		r.WithByteOrder(packet.ByteOrder(def))
@@ -314,7 +321,7 @@ func newWindowFrom(start, count int, poisoned bool, def uint8, d []byte, res *ev
 		def = spec.DefaultOrder
 	}
 	p := append([]byte(nil), d...)
-	return &window{c: Case{Start: start, Count: count, Poisoned: poisoned, Default: def}, data: d, pristine: p, regs: r, w: spec.Window{Start: start, Wire: p}}
+	return &window{c: Case{Start: start, Count: count, Poisoned: poisoned, Default: def, Prior: prior}, data: d, pristine: p, regs: r, w: spec.Window{Start: start, Wire: p}}
 }
 
 func posClass(c Case) string {
@@ -341,7 +348,7 @@ func posClass(c Case) string {
 
 func (w *window) eval(c Case, res *ev.Result, lc *local) {
 	lc.evals++
-	c.Start, c.Count, c.Poisoned, c.Default, c.Data = w.c.Start, w.c.Count, w.c.Poisoned, w.c.Default, w.c.Data
+	c.Start, c.Count, c.Poisoned, c.Default, c.Data, c.Prior = w.c.Start, w.c.Count, w.c.Poisoned, w.c.Default, w.c.Data, w.c.Prior
 	o := callAcc(w.regs, c)
 	if !bytes.Equal(w.data, w.pristine) {
 		// an accessor that rewrites the shared payload makes every later read of those registers return something that
@@ -539,6 +546,20 @@ func run(tier string, shard, nsh int, res *ev.Result) {
 			}
 		}
 	})
+	// the view's default order set more than once: only the last WithByteOrder counts
+	jobs = append(jobs, func(lc *local) {
+		for _, prior := range [][]uint8{{spec.OrdLE}, {spec.OrdLE | spec.OrdLowWordFirst}, {spec.OrdBE | spec.OrdLowWordFirst}, {spec.OrdLE, spec.OrdBE | spec.OrdLowWordFirst}} {
+			for _, def := range orders7 {
+				w := newWindowFrom(100, 6, false, def, payload(6, false), res, prior...)
+				if w == nil {
+					return
+				}
+				for a := 99; a <= 106; a++ {
+					w.sweepAddr(a, true, res, lc)
+				}
+			}
+		}
+	})
 	for _, count := range counts {
 		count := count
 		startSet := map[int]bool{}
@@ -624,6 +645,9 @@ func replay(check string, raw json.RawMessage, res *ev.Result) {
 		def = 0
 	}
 	w := newWindow(c.Start, c.Count, c.Poisoned, def, res)
+	if len(c.Prior) > 0 {
+		w = newWindowFrom(c.Start, c.Count, c.Poisoned, def, payload(c.Count, c.Poisoned), res, c.Prior...)
+	}
 	if c.Data != "" {
 		d, _ := hex.DecodeString(c.Data)
 		w = newValueWindow(c.Start, d, def, res)
